@@ -152,6 +152,60 @@ CHECKS['C11'] = dict(
          'accuracy of AS241 itself (published); RNG quality. Floats as reals.',
     design='DESIGN.md 1/C11')
 
+CHECKS['C14'] = dict(
+    text='DECIDABLE PART. get_new_file_name / create_backup on a directory whose content is a set of solver variables: the '
+         'returned name never exists, for every occupancy; three generations of each output kind (html, tex, F12, pickle, '
+         'data dump, flat csv) through the real writers with model names with/without dots and files of a longer-named '
+         'model present: no write opens an existing file, files_of_type returns exactly this model\'s files and '
+         'estimate(recycle=True) reads the newest; pickle round trip with symbolic estimates: every statistic, table cell '
+         'and report line of the reloaded object equals the original; HTML/LaTeX/F12/printed reports list every parameter '
+         'with its (symbolic) value, also for names sharing their first ten characters.',
+    note='NOT claimed: TOML parameter-file round trip (tomlkit parsing / float text not executable on proxies). Stubs: '
+         'symbolic directory model, pickle -> object store with deep copies, numpy/scipy contracts of C08.',
+    design='DESIGN.md 1/C14')
+CHECKS['C16'] = dict(
+    text='For 9 catalog structures (independent, shared controller, nested in first/later alternative, three controllers, '
+         'segmentation helper, generic/alt-specific helper with and without segmentation): one configuration per '
+         'combination, identifiers order-independent and invertible, iteration visits each once; selection by '
+         'configuration / identifier / SYMBOLIC integer index (all integers): every catalog takes the matching alternative '
+         'and the value equals the hand-written formula for all data and parameters (z3); every operator of '
+         'prepare_operators with a SYMBOLIC integer step (all integers), every start and an arbitrary earlier controller '
+         'state: valid result, moves by the step modulo the size, increase/decrease and opposite pair moves are inverse; '
+         'Controller.modify_controller with symbolic index and step in both modes.',
+    note='Trusted: engine contract; random.choices replaced by solver-chosen elements. Outside: more than 3 controllers per '
+         'formula, names containing the reserved characters.',
+    design='DESIGN.md 1/C16')
+CHECKS['C18'] = dict(
+    text='DECIDABLE PART. For the 4 MDCEV variants (with/without outside good, prices, scale), 5 labelings (labels != '
+         'positions, outside good labelled 0 or not at its position) and ALL parameter values, data, consumption, error '
+         'term, multiplier and budget in the stated domain, z3 shows: numeric utility = value of the symbolic utility; '
+         'numeric derivative = its derivative; derivative(optimal consumption(lambda)) = lambda; error-term vectors are '
+         'indexed by key_to_index everywhere; identification_chosen_alternatives always keeps the outside good, chosen '
+         'goods have the largest marginal utilities at zero, and the returned bracket straddles the budget; a second '
+         'observation with the same name uses its own data.',
+    note='NOT claimed: convergence of the 5000-step floating-point bisection and of SLSQP (the replay runs one real forecast '
+         'per point against the optimality conditions, as confirmation only). Trusted: engine contract, ELN rules.',
+    design='DESIGN.md 1/C18')
+CHECKS['C19'] = dict(
+    text='For 5 alternatives in 2 strata, 4 sample-size vectors, every chosen alternative and EVERY possible draw (pandas '
+         'sample replaced by a solver-chosen subset) the generated row lists the chosen alternative first, no duplicates, the '
+         'requested number per stratum, ln(k/n) corrections and n/k weights; attributes and combined variables are those '
+         'of the listed alternative (z3, symbolic attributes); with complete sampling the logit / nested-logit log '
+         'likelihood on the sample equals the full-choice-set model for ALL attributes and parameters (z3 + ELN).',
+    note='Trusted: engine contract, ELN rules. Outside: cross-nested model on samples, larger tables, recycle=True.',
+    design='DESIGN.md 1/C19')
+CHECKS['C20'] = dict(
+    text='For every alias discovered in the current tree (about 120 @deprecated functions/methods, 21 functions with renamed '
+         'keywords) and every non-abstract class of the package inheriting it: the REAL wrapper runs with the replacement '
+         'replaced by a recorder for every call shape admitted by the replacement (positional, by keyword, required only, '
+         'extra keywords, one argument None) with symbolic values: same arguments modulo the replacement signature, same '
+         'result, exactly one DeprecationWarning naming both; the call reaches the new method as resolved on the '
+         'RECEIVER; the replacement is the one whose name / documented purpose matches; model aliases have the value of their '
+         'documented replacement on symbolic data (engine model).',
+    note='Outside: behaviour of the replacements themselves; user-defined subclasses (toy hierarchy only). Receivers are created '
+         'without running __init__.',
+    design='DESIGN.md 1/C20')
+
 NOT_APPLICABLE = {}
 
 
